@@ -42,11 +42,16 @@ def rule_ellipsis(ctx):
     parents = f.module.parents
     # the set of used symbols and the list of fresh ones
     used = None
+    # the collection the fresh-symbol choice is tested against, if any (`ix not in <used>`)
+    tested = {dotted(n.comparators[0]) for n in walk_local(f.node) if isinstance(n, ast.Compare)
+              and isinstance(n.ops[0], ast.NotIn) and isinstance(n.comparators[0], ast.Name)}
     for n in walk_local(f.node):
         if isinstance(n, ast.Call) and isinstance(n.func, ast.Attribute) and n.func.attr in ("update", "add") \
                 and isinstance(n.func.value, ast.Name):
             st = C.enclosing_stmt(f, n)
-            if C.enclosing_loops(f, st):
+            if C.enclosing_loops(f, st) and (used is None or n.func.value.id in tested):
+                if used is not None and used[0] in tested and n.func.value.id not in tested:
+                    continue
                 used = (n.func.value.id, st)
     C.require(used is not None, "parse_equation_ellipses: collection of used symbols not found")
     uname, ust = used
@@ -432,6 +437,25 @@ def rule_canon(ctx):
         else:
             r.ok(k, f.loc, f"{labels[i]}: {n_mapped} definition(s) through `{mp}[...]`"
                  + (" / derived from renamed inputs" if n_mapped < len([d for d in defs if d.value is not None]) else ""))
+    # (seed C12_5) with no output given, the label interface keeps the indices that appear once *in order of
+    # first appearance*; the string front end sorts them.  The two agree only while code-point order equals
+    # appearance order of the canonical symbols (26 labels: 'A' < 'a'), so the canonical output of the label
+    # interface must come from the order-of-appearance routine
+    k = ctx.key(f, "C12-CANON", "implicit-output")
+    calls = [n for n in walk_local(f.node) if isinstance(n, ast.Call) and (dotted(n.func) or "").split(".")[-1]
+             in ("find_output_from_inputs", "find_output_str")]
+    implicit = [c for c in calls if any((not in_true and "output is not None" in C.unparse(g.test)) or
+                                        (in_true and "output is None" in C.unparse(g.test))
+                                        for g, in_true in C.enclosing_ifs(f, C.enclosing_stmt(f, c)))]
+    if not implicit:
+        raise AnalysisError("canonicalize_inputs: the implicit-output branch was not recognised")
+    sorted_ones = [c for c in implicit if (dotted(c.func) or "").endswith("find_output_str")]
+    if sorted_ones:
+        r.violation(k, C.loc(f, sorted_ones[0]), f"`{C.unparse(sorted_ones[0], 50)}`: the implicit output of the label interface is "
+                    f"computed by the *sorting* routine; canonical symbols are handed out a-z then A-Z, and 'A' sorts before 'a', "
+                    f"so with more than 26 labels the output axes are no longer in order of first appearance")
+    else:
+        r.ok(k, C.loc(f, implicit[0]), "implicit output of the label interface = indices appearing once, in order of first appearance")
     return r
 
 
